@@ -15,7 +15,9 @@ func (d *fixDemoDispatcher) Dispatch(buf []byte) { d.lines = append(d.lines, str
 func (d *fixDemoDispatcher) IncNumInvalid()      { d.invalid++ }
 
 // TestFixDemoPickleLongIntegerValue feeds the pickle input what Python produces for
-//   pickle.dumps([('a.b', (1600000000, 2**40))], protocol=2)
+//
+//	pickle.dumps([('a.b', (1600000000, 2**40))], protocol=2)
+//
 // Python encodes integers >= 2^31 with the LONG1 opcode, which the decoder returns as *big.Int.
 // The text protocol equivalent 'a.b 1099511627776 1600000000' is a perfectly valid metric.
 func TestFixDemoPickleLongIntegerValue(t *testing.T) {
